@@ -72,6 +72,10 @@ def precond_rep(obj):
     return obj.misc["rep"]
 def precond_norep(obj):
     return not obj.misc["rep"]
+def precond_nop(obj):
+    # 90 is NOP unless REX.B makes it XCHG r8,rAX (and F3 90 is PAUSE)
+    REX = obj.misc["REX"]
+    return not obj.misc["rep"] and not (REX and REX[3] == 1)
 def precond_opdsz(obj):
     return obj.misc["opdsz"]
 def precond_noopdsz(obj):
@@ -101,7 +105,7 @@ def precond_32bits(obj):
 # -------------
 
 
-@ispec_ia32(" 8>[ {90} ]", mnemonic="NOP", type=type_data_processing,__obj=precond_norep)
+@ispec_ia32(" 8>[ {90} ]", mnemonic="NOP", type=type_data_processing,__obj=precond_nop)
 @ispec_ia32(" 8>[ {90} ]", mnemonic="PAUSE", type=type_cpu_state,__obj=precond_rep)
 def ia32_nop(obj):
     pass
@@ -450,8 +454,9 @@ def ia32_xchg(obj, rd):
     W, R, X, B = getREX(obj)
     if W == 1:
         size = 64
-    if R == 1:
-        rd = (R << 3) + rd
+    # the register in the opcode byte is extended by REX.B:
+    if B == 1:
+        rd = (B << 3) + rd
     op1 = env.getreg(0, size)
     op2 = env.getreg(rd, size)
     obj.operands = [op1, op2]
